@@ -64,6 +64,14 @@ def axioms():
     return ax
 
 
+def order_instance(x, y, i):
+    """B14 (lemmas/Bits.lean: B14_lt_of_testBit = Nat.lt_of_testBit) as an explicit lemma instance for naturals x, y and position i:
+    not bit(x,i), bit(y,i), equal above i  ->  x < y"""
+    j = Int('j')
+    return Implies(And(x >= 0, y >= 0, Not(bit(x, i)), bit(y, i),
+                       ForAll([j], Implies(j > i, bit(x, j) == bit(y, j)), patterns=[bit(x, j), bit(y, j)])), x < y)
+
+
 def ext_instance(a, b, w):
     """B9 (extensionality on naturals) as an explicit lemma instance with skolem witness `w`:
     a,b >= 0 and (bit(a,w) == bit(b,w) for the witness) -> a == b   is NOT valid in general; the sound form is
@@ -130,4 +138,6 @@ def selftest_axioms(lim=40, kmax=9):
                 n += 1
             if x >= 0 and y >= 0 and x != y:
                 assert any(c_bit(x, k) != c_bit(y, k) for k in range(0, 8))
+                hi = max(k for k in range(0, 8) if c_bit(x, k) != c_bit(y, k))      # B14: order by the highest differing bit
+                assert (x < y) == c_bit(y, hi)
     return n
